@@ -203,7 +203,7 @@ def definesOf (cfg : ECfg) : List Assign → List (Str × Val) → List (Str × 
         mRaise { cls := "ValueError", msg := [] }
       else do
         (names.zip vs).forM (fun (nm, x) => setVar nm.str x)
-        if !local_ then names.forM (fun nm => setGlobal nm.str v) else pure ()
+        if !local_ then (names.zip vs).forM (fun (nm, x) => setGlobal nm.str x) else pure ()
     definesOf cfg rest al (bk ++ backups) k
 
 /-- **the statement semantics of one element** (of the TAL fragment): `body al` renders the children with the aliases
